@@ -78,6 +78,9 @@ def generate(ctx):
         ctx.texts.append((ctx.add('from_slice %s' % gen.hexarg(t), kind='text').id, t))
     for t in [b'12345678', b'-1234567', b'"abc0000"', b'[1,2,3,4]', b'123456789012', b'"\\u0041bcdefgh"', b'1.5e300000', b'00000000']:
         ctx.texts.append((ctx.add('from_slice %s' % gen.hexarg(t), kind='text').id, t))
+    # DecodeMore.from_slice_text needs no "does not begin with a space": white-space-initial texts fall back too
+    for t in [b' 12345678', b'  [1,2,3]', b'\t[1,2]', b'\n{"a":1}', b' "abc"', b'   0', b' 000', b'    null', b' \r\n true']:
+        ctx.texts.append((ctx.add('from_slice %s' % gen.hexarg(t), kind='text').id, t))
 
 
 def judge(ctx):
